@@ -115,7 +115,7 @@ static long double dy(Rng& g, int maxnum, int maxexp) {      // +-num * 2^-j
 }
 static void section_gen() {
     Rng g(seed_from_env() * 7919 + 10);
-    const int K = thorough ? 25 : 2;      // quick: 2, thorough: 25 (about 10x)
+    const int K = thorough ? 20 : 2;      // quick: 2, thorough: 20 (10x)
     int idx = 0;
     for (int n = 2; n <= 4; ++n) {
         long double m[16];
